@@ -412,6 +412,13 @@ def scenarios():
          [{'op': 'soak_distinct', 'cfg': 'c0'}])
     scen('distinct-inputs/stylesheet-cached', _w([{'id': 'c0', 'holder': 'dict', 'type': 'stylesheet', 'cache': 'k0', 'snippets': STYLE_SN}], caches=['k0']),
          [{'op': 'soak_distinct', 'cfg': 'c0'}])
+    # ... and a host that builds a fresh config with fresh callback objects for every call
+    scen('distinct-inputs/fresh-config-per-call/markup', _w([{'id': 'c0', 'holder': 'dict', 'peer': {'seed': 2, 'style': 'textmate'},
+                                                               'options': {'bem.enabled': True}, 'text': ['w1', 'w2'], 'snippets': dict(USER_SN)}]),
+         [{'op': 'soak_distinct', 'cfg': 'c0', 'fresh_cfg': True}])
+    scen('distinct-inputs/fresh-Config-per-call/stylesheet', _w([{'id': 'c0', 'holder': 'Config', 'type': 'stylesheet', 'peer': {'seed': 4, 'style': 'identity'},
+                                                                  'cache': 'k0', 'snippets': {'kmar': 'margin:10'}}], caches=['k0']),
+         [{'op': 'soak_distinct', 'cfg': 'c0', 'fresh_cfg': True, 'warm': 100, 'seg': 500}])
     return out
 
 
